@@ -121,7 +121,8 @@ class C19Monitor(Monitor):
                     if on == "NOT_STARTED":
                         ok = int(new) == 1
                     elif on in TERMINAL:
-                        ok = nn == "NOT_STARTED" and s.get("repeat_kill_chain", False)
+                        # a restart (only with repeat_kill_chain) may already have entered the first stage in this step
+                        ok = (nn == "NOT_STARTED" or int(new) == 1) and s.get("repeat_kill_chain", False)
                     elif nn == "FAILED":
                         ok = True
                     elif nn == "SUCCEEDED":
